@@ -194,6 +194,10 @@ Definition priv_char (m : N) (op : bool) (p : privs) : option privs :=
   end.
 Definition is_priv_char (m : N) : bool :=
   match m with 113%N | 97%N | 111%N | 104%N | 118%N => true | _ => false end.
+(* the list modes b e I (bans, ban exceptions, invite exceptions): not tracked, but they come
+   with a mask that must be skipped *)
+Definition is_list_mode_char (m : N) : bool :=
+  match m with 98%N | 101%N | 73%N => true | _ => false end.
 
 (* strconv.Atoi with the error dropped ([ch.modes.Limit, _ = strconv.Atoi(arg)]): optional
    sign, at least one digit, digits only — otherwise 0; a value outside int64 is clamped
@@ -212,7 +216,9 @@ Definition atoi (s : bytes) : Z :=
    of pairs (c, _)) and the remaining arguments are threaded through the string.
    LEFT OPEN BY THE PROPERTY, as the code: +k/+l consume one argument when adding and one is
    available; -k/-l consume none; q a o h v consume one only when it names a nick on the
-   channel (otherwise nothing changes and the argument stays); unknown bytes are ignored. *)
+   channel (otherwise nothing changes and the argument stays); the list modes b e I consume one
+   argument when one is available, for + and for -, and change nothing else; unknown bytes are
+   ignored. *)
 Record pstate := { ps_op : bool; ps_args : list bytes; ps_cm : chanmode;
                    ps_mem : gmap (name * name) privs }.
 Definition chan_parse_char (c : name) (st : pstate) (m : N) : pstate :=
@@ -230,6 +236,11 @@ Definition chan_parse_char (c : name) (st : pstate) (m : N) : pstate :=
     | true, a :: args' => Build_pstate op args' (set_limit (atoi a) cm) mem
     | true, [] => st
     | false, _ => Build_pstate op args (set_limit 0 cm) mem
+    end
+  else if is_list_mode_char m then                                    (* b e I *)
+    match args with
+    | _ :: args' => Build_pstate op args' cm mem
+    | [] => st
     end
   else if is_priv_char m then                                         (* q a o h v *)
     match args with
